@@ -47,6 +47,16 @@ def installation(gen, rnd):
         else:
             ab["min_cool"], ab["max_cool"] = rnd.randint(14, 18), rnd.randint(28, 31)
             ab["min_heat"], ab["max_heat"] = rnd.randint(15, 20), rnd.randint(29, 33)
+        # what the console reports during the handshake is as varied as what it reports later:
+        # an AC may already be in an error episode (with or without a text) when the client
+        # initialises
+        if rnd.random() < 0.6:
+            a["status"] = rand_ac(gen, rnd, a["status"]["ac"])
+            if a["status"]["error"]:
+                inst["errors"][a["status"]["ac"]] = rnd.choice(["E5 compressor", "ER: 12", None])
+    for z in inst["zones"]:
+        if rnd.random() < 0.6:
+            z["status"] = rand_zone(gen, rnd, z["id"])
     return inst
 
 
